@@ -201,6 +201,16 @@ def run(tier, seed, replay=None):
         finally:
             w.close()
     K.validate_family(ctx, PID, dual, "line4", hdr_d, "dual-stack", NONTRIVIAL)
+    # what comes back from outside may itself look like a data message of the tunnel community for any circuit id
+    w = R.world("line4", seed * 100 + 95)
+    try:
+        gone = K.guarded(w, K.nested_walk, w, (2, 1))
+        tr = {"events": w.events, "topology": "line4", "seed": seed, "profile": "nested-from-outside", "aborted": gone}
+        K.check_escapes(ctx, w, tr, "nested-from-outside")
+        hdr_n = w.header()
+    finally:
+        w.close()
+    K.validate_family(ctx, PID, [tr], "line4", hdr_n, "nested-from-outside", NONTRIVIAL | {"OutsideNested"})
     K.random_family(ctx, PID, "line4", "tamper", range(base + 50, base + 50 + (1 if tier == "quick" else 6)), steps, NONTRIVIAL,
                     dual_stack=True)
     ctx.note("e2e", {"runs": len(e2e), "events": sum(len(t["events"]) for t in e2e),
